@@ -59,6 +59,6 @@ json.dump({"comment": "Committed list of genuine defects of pyinvoke/invoke foun
            "findings": kf}, open(os.path.join(VERIF, "known_findings.json"), "w"), indent=1)
 # root module of the Lean library
 props = sorted(p for p in claimed if os.path.exists(os.path.join(VERIF, "lean", "Invoke", "Props", p + ".lean")))
-open(os.path.join(VERIF, "lean", "Invoke.lean"), "w").write("-- Root of the `Invoke` library (written by tools/mkmanifest.py): every property file.\n" + "".join("import Invoke.Props.%s\n" % x for x in props))
+open(os.path.join(VERIF, "lean", "Invoke.lean"), "w").write("-- Root of the `Invoke` library.  The property files (Invoke/Props/Cnn.lean) are built one by one by\n-- tools/setup.sh and by each check (`lake build Invoke.Props.Cnn`); they are not imported here because\n-- independent models may reuse a definition name.  Claimed: " + " ".join(props) + "\n")
 json.dump(man, open(os.path.join(VERIF, "MANIFEST.json"), "w"), indent=1)
 print("checks:", [c["property_id"] for c in checks], "not claimed:", [n["property_id"] for n in na])
